@@ -1,6 +1,6 @@
 (** extraction entry point for the C08 correspondence check and judge *)
 From Coq Require Import ZArith List Bool Arith.
-From ErgV Require Import Common.Sx Lexer.Model Lexer.Spec.
+Require Import ErgV.Common.Sx ErgV.Lexer.Model ErgV.Lexer.Spec .
 Import ListNotations.
 Open Scope Z_scope.
 
